@@ -121,16 +121,18 @@ def buildKwargs (conv : Str → Option (Val → R Val)) : List Item → List (St
             | .ok r => buildKwargs conv rest (insertKw name r acc)
         | _ => buildKwargs conv rest acc
 
+/-- The argument the constructor binds to field `f`: the keyword, else the default, else TypeError. -/
+def fieldArg (ci : ClassInfo) (kw : List (Str × Val)) (f : Str × Ty) : R (Str × Val) :=
+  match lookupKw f.1 kw with
+  | some v => .ok (f.1, v)
+  | none =>
+    match lookupKw f.1 ci.defaults with
+    | some d => .ok (f.1, d)
+    | none => .error .type
+
 /-- `t(**kwargs)` for dataclasses, named tuples and keyword-constructible classes. -/
 def construct (ci : ClassInfo) (c : Nat) (kw : List (Str × Val)) : R Val :=
-  let go := mapR (fun (f : Str × Ty) =>
-    match lookupKw f.1 kw with
-    | some v => Except.ok (f.1, v)
-    | none =>
-      match lookupKw f.1 ci.defaults with
-      | some d => .ok (f.1, d)
-      | none => .error .type) ci.fields
-  match go with
+  match mapR (fieldArg ci kw) ci.fields with
   | .error e => .error e
   | .ok fs => .ok (.inst c fs)
 
@@ -161,16 +163,40 @@ def fieldsOf (env : Env) (c : Nat) : List (Str × Ty) :=
   | some ci => ci.fields
   | none => []
 
+/-- `(keys(k), values(v))` for one delivered item; an unhashable converted key fails the dict build. -/
+def convPair (fk fv : Val → R Val) (it : Item) : R (Val × Val) :=
+  match it with
+  | .error er => .error er
+  | .ok (a, b) =>
+    match fk a with
+    | .error er => .error er
+    | .ok a' =>
+      match fv b with
+      | .error er => .error er
+      | .ok b' => if hashable a' then .ok (a', b') else .error .type
+
+/-- `NoneTypeUnmarshaller`. -/
+def umNone (v : Val) : R Val :=
+  match decode v with
+  | .none => .ok .none
+  | _ => .error .value
+
+/-- `UnionMarshaller`: None passes through when the union is nullable; otherwise the first accepting
+    member in declaration order, the (no-op) routine of a None member excluded. -/
+def marUnion (ms : List Ty) (f : Ty → Val → R Val) (v : Val) : R Val :=
+  if nullable ms then
+    match v with
+    | .none => .ok .none
+    | _ => firstOk ((ms.filter (fun m => !m.isNone)).map f) v
+  else firstOk (ms.map f) v
+
 /-- `unmarshal(T, x)`. -/
 def um (env : Env) (L : Leaves) : Nat → Ty → Val → R Val
   | 0, _, _ => .error .fuel
   | n + 1, t, v =>
     match t with
     | .scalar s => L.um s v
-    | .none =>
-      match decode v with
-      | .none => .ok .none
-      | _ => .error .value
+    | .none => umNone v
     | .any => .ok v
     | .literal vs =>
       match pyMem? env v vs with
@@ -203,39 +229,12 @@ def um (env : Env) (L : Leaves) : Nat → Ty → Val → R Val
       match (load env L v).bind (iteritems env) with
       | .error er => .error er
       | .ok items =>
-        match mapR (fun (it : Item) =>
-            match it with
-            | .error er => Except.error er
-            | .ok (a, b) =>
-              match um env L n k a with
-              | .error er => .error er
-              | .ok a' =>
-                match um env L n e b with
-                | .error er => .error er
-                | .ok b' => if hashable a' then .ok (a', b') else .error .type) items with
+        match mapR (convPair (um env L n k) (um env L n e)) items with
         | .error er => .error er
         | .ok kvs => .ok (.dict kvs)
     | .union ms => firstOk ((unionOrder ms).map (um env L n)) v
     | .cls c => (load env L v).bind (umStruct env c (convOf (fieldsOf env c) (um env L n)))
     | .wrap _ t' => um env L n t' v
-
-/-- `{f: fields[f](v) for f, v in iteritems(val) if f in fields}` of `StructuredTypeMarshaller`. -/
-def marFields (conv : Str → Option (Val → R Val)) : List Item → List (Val × Val) → R (List (Val × Val))
-  | [], acc => .ok acc
-  | it :: rest, acc =>
-    match it with
-    | .error e => .error e
-    | .ok (k, v) =>
-      if !hashable k then .error .type
-      else match k with
-        | .str name =>
-          match conv name with
-          | none => marFields conv rest acc
-          | some f =>
-            match f v with
-            | .error e => .error e
-            | .ok r => marFields conv rest (acc ++ [(.str name, r)])
-        | _ => marFields conv rest acc
 
 /-- `marshal(v, t=T)`. -/
 def mar (env : Env) (L : Leaves) : Nat → Ty → Val → R Val
@@ -271,23 +270,10 @@ def mar (env : Env) (L : Leaves) : Nat → Ty → Val → R Val
       match iteritems env v with
       | .error er => .error er
       | .ok items =>
-        match mapR (fun (it : Item) =>
-            match it with
-            | .error er => Except.error er
-            | .ok (a, b) =>
-              match mar env L n k a with
-              | .error er => .error er
-              | .ok a' =>
-                match mar env L n e b with
-                | .error er => .error er
-                | .ok b' => if hashable a' then .ok (a', b') else .error .type) items with
+        match mapR (convPair (mar env L n k) (mar env L n e)) items with
         | .error er => .error er
         | .ok kvs => .ok (.dict kvs)
-    | .union ms =>
-      match nullable ms, v with
-      | true, .none => .ok .none
-      | true, _ => firstOk ((ms.filter (fun m => !m.isNone)).map (mar env L n)) v
-      | false, _ => firstOk (ms.map (mar env L n)) v
+    | .union ms => marUnion ms (mar env L n) v
     | .cls c =>
       match env.cls c with
       | none => .error .unsupported
@@ -295,9 +281,10 @@ def mar (env : Env) (L : Leaves) : Nat → Ty → Val → R Val
         match iteritems env v with
         | .error er => .error er
         | .ok items =>
-          match marFields (convOf ci.fields (mar env L n)) items [] with
+          -- `{f: fields[f](v) for f, v in iteritems(val) if f in fields}`: the same comprehension
+          match buildKwargs (convOf ci.fields (mar env L n)) items [] with
           | .error er => .error er
-          | .ok kvs => .ok (.dict kvs)
+          | .ok kw => .ok (.dict (kw.map fun p => (.str p.1, p.2)))
     | .wrap _ t' => mar env L n t' v
 
 end Typelib
